@@ -202,6 +202,13 @@ Definition key_absolute (c : ctx) (k : string) : bool :=
   let e := expand_key c k in
   is_keyword e || (is_absolute_iri e && negb (starts_with "_:" e)).
 
+(* the shape json-gold's test lets through although it is no absolute IRI: the
+   expansion contains ':' but is a blank node identifier ("_:b") or has no scheme
+   (":x", ":") — known finding D27 *)
+Definition colon_not_absolute (c : ctx) (k : string) : bool :=
+  let e := expand_key c k in
+  has_colon e && negb (is_keyword e) && negb (is_absolute_iri e && negb (starts_with "_:" e)).
+
 (* ---- term definitions ---- *)
 Definition dstate := (termmap * list (string * bool))%type.
 
